@@ -311,7 +311,78 @@ func runC18FileRO(variant string) []string {
 	return viol
 }
 
+// runC18FileErrClose: a path-backed DB whose Close reports a compaction error (a table was
+// damaged on disk and a compaction met it) must still give the directory back.
+func runC18FileErrClose() []string {
+	var viol []string
+	bad := func(f string, a ...any) {
+		viol = append(viol, "path-backed DB, Close with a compaction error: "+fmt.Sprintf(f, a...))
+	}
+	dir, err := os.MkdirTemp("", "verif-c18ec-")
+	if err != nil {
+		return []string{err.Error()}
+	}
+	defer os.RemoveAll(dir)
+	o := harness.Config{Name: "flushy/bytewise"}.Options()
+	db, err := leveldb.OpenFile(dir, o)
+	if err != nil {
+		return []string{"setup: " + err.Error()}
+	}
+	for _, k := range []string{"a", "b", "c", "a", "b"} {
+		db.Put([]byte(k), []byte("v-"+k), &opt.WriteOptions{Sync: true})
+	}
+	db.CompactRange(util.Range{})
+	db.Close()
+	ents, _ := os.ReadDir(dir)
+	damaged := 0
+	for _, e := range ents {
+		if filepath.Ext(e.Name()) == ".ldb" {
+			p := filepath.Join(dir, e.Name())
+			b, _ := os.ReadFile(p)
+			if len(b) > 60 {
+				b[3] ^= 0x5a // inside the first data block
+				os.WriteFile(p, b, 0o644)
+				damaged++
+			}
+		}
+	}
+	if damaged == 0 {
+		return nil
+	}
+	db, err = leveldb.OpenFile(dir, o)
+	if err != nil {
+		return nil // the damage already refuses the open: nothing to observe
+	}
+	for _, k := range []string{"a", "b", "c"} {
+		db.Put([]byte(k), []byte("w-"+k), nil)
+	}
+	cerr := db.CompactRange(util.Range{})
+	closeErr := db.Close()
+	if _, e2 := db.Get([]byte("a"), nil); e2 != leveldb.ErrClosed {
+		bad("Get after Close returned %v", e2)
+	}
+	// whatever Close reported, the directory is free again
+	db2, err := leveldb.OpenFile(dir, o)
+	if err != nil {
+		db2, err = leveldb.RecoverFile(dir, o)
+	}
+	if err != nil {
+		bad("the directory is still owned after Close (CompactRange: %v, Close: %v): %v", cerr, closeErr, err)
+		return viol
+	}
+	db2.Close()
+	return viol
+}
+
 func runC18Own(t *c18Own) []string {
+	if t.Stor == "file-errclose" {
+		var viol []string
+		r := vsched.Run(vsched.Options{}, func() { viol = runC18FileErrClose() })
+		if r.Verdict != vsched.Completed {
+			viol = append(viol, fmt.Sprintf("path-backed DB, Close with a compaction error: execution ended with %s: %v", r.Verdict, r.PanicValue))
+		}
+		return viol
+	}
 	if t.Stor == "file-ro" {
 		var viol []string
 		r := vsched.Run(vsched.Options{}, func() { viol = runC18FileRO(t.Script[0]) })
@@ -427,6 +498,11 @@ func init() {
 					metas = append(metas, m)
 					raw = append(raw, explore.MustJSON(m))
 				}
+			}
+			{
+				m := c18Own{Kind: "own", Stor: "file-errclose", Script: []string{"corrupt-compact-close-reopen"}}
+				metas = append(metas, m)
+				raw = append(raw, explore.MustJSON(m))
 			}
 			for _, v := range []string{"clean", "stale-current-n", "pending-current-n", "current-bak", "stray-tmp"} {
 				m := c18Own{Kind: "own", Stor: "file-ro", Script: []string{v}}
